@@ -8,6 +8,11 @@ use pallas_traverse::wellknown::GenesisValues;
 
 const MAX: u64 = 1 << 40;
 
+/// symbolic slot < 2^40 (masking keeps the upper 24 bits constant for the bit-blaster)
+fn any_slot() -> u64 {
+    kani::any::<u64>() & (MAX - 1)
+}
+
 fn byron_len(g: &GenesisValues) -> u64 {
     g.byron_epoch_length as u64 / g.byron_slot_length as u64
 }
@@ -22,15 +27,15 @@ macro_rules! shelley_rel {
         #[kani::unwind(2)]
         fn $name() {
             let g = GenesisValues::$net();
-            let slot: u64 = kani::any();
+            let slot = any_slot();
             kani::assume(slot >= g.shelley_known_slot && slot < MAX);
             let (epoch, sub) = g.absolute_slot_to_relative(slot);
             let len = shelley_len(&g);
             assert!(sub < len, "sub-slot below the Shelley epoch length in slots");
             assert!(g.relative_slot_to_absolute(epoch, sub) == slot, "relative->absolute inverts absolute->relative (Shelley)");
             let era_slot = slot - g.shelley_known_slot;
-            assert!(epoch == g.shelley_known_slot / byron_len(&g) + era_slot / len, "epoch = Byron epochs + floor(era slot / epoch length)");
-            assert!(sub == era_slot % len, "sub-slot = era slot mod epoch length");
+            let start = g.shelley_known_slot / byron_len(&g); // concrete
+            assert!(epoch >= start && (epoch - start) * len + sub == era_slot, "(epoch - Byron epochs) * epoch length + sub-slot = era slot, i.e. Euclidean division of the era slot");
             kani::cover!(sub == len - 1 && epoch > g.shelley_start_epoch() + 1, "last slot of a later Shelley epoch");
             kani::cover!(slot == g.shelley_known_slot, "first Shelley slot");
             core::mem::forget(g);
@@ -51,7 +56,7 @@ macro_rules! byron_rel {
         #[kani::unwind(2)]
         fn $name() {
             let g = GenesisValues::$net();
-            let slot: u64 = kani::any();
+            let slot = any_slot();
             kani::assume(slot < g.shelley_known_slot && slot < MAX);
             let (epoch, sub) = g.absolute_slot_to_relative(slot);
             kani::cover!(epoch >= 1, "a Byron slot beyond the first epoch");
@@ -74,19 +79,19 @@ macro_rules! byron_rest {
         #[kani::unwind(2)]
         fn $name() {
             let g = GenesisValues::$net();
-            let slot: u64 = kani::any();
+            let slot = any_slot();
             kani::assume(slot < g.shelley_known_slot && slot < MAX);
             let len = byron_len(&g);
             let (epoch, sub) = g.absolute_slot_to_relative(slot);
-            assert!(epoch == slot / len, "Byron epoch = floor(slot / epoch length in slots)");
+            assert!(epoch * len <= slot && slot - epoch * len < len, "Byron epoch = floor(slot / epoch length in slots)");
             assert!(epoch < g.shelley_start_epoch(), "Byron slots lie in epochs before the Shelley start epoch");
             if slot < len {
                 // assumed away elsewhere: slot >= len (sub-slot defect)
                 assert!(sub == slot, "first Byron epoch: sub-slot = slot");
                 assert!(g.relative_slot_to_absolute(epoch, sub) == slot, "first Byron epoch: round trip");
             }
-            assert!(g.relative_slot_to_absolute(epoch, slot % len) == slot, "relative->absolute on the correct Byron pair");
-            kani::cover!(epoch >= 1 && slot % len == len - 1, "last slot of a later Byron epoch");
+            assert!(g.relative_slot_to_absolute(epoch, slot - epoch * len) == slot, "relative->absolute on the correct Byron pair");
+            kani::cover!(epoch >= 1 && slot - epoch * len == len - 1, "last slot of a later Byron epoch");
             kani::cover!(slot < len, "first Byron epoch");
             core::mem::forget(g);
         }
@@ -106,9 +111,8 @@ macro_rules! rel_abs {
         #[kani::unwind(2)]
         fn $name() {
             let g = GenesisValues::$net();
-            let epoch: u64 = kani::any();
-            let sub: u64 = kani::any();
-            kani::assume(epoch < (1 << 20));
+            let epoch = (kani::any::<u32>() & 0xf_ffff) as u64;
+            let sub = (kani::any::<u32>() & 0xf_ffff) as u64;
             let start = g.shelley_start_epoch();
             let byron = epoch < start;
             let len = if byron { byron_len(&g) } else { shelley_len(&g) };
@@ -119,18 +123,17 @@ macro_rules! rel_abs {
                 assert!(slot < g.shelley_known_slot, "Byron pair maps to a Byron slot");
             } else {
                 assert!(slot == g.shelley_known_slot + (epoch - start) * len + sub, "Shelley: slot = known + (epoch - start) * length + sub");
-                let (e2, s2) = g.absolute_slot_to_relative(slot);
-                assert!(e2 == epoch && s2 == sub, "absolute->relative inverts relative->absolute (Shelley)");
             }
-            let (e2, _) = g.absolute_slot_to_relative(slot);
+            let (e2, s2) = g.absolute_slot_to_relative(slot);
             assert!(e2 == epoch, "epoch survives the round trip in both eras");
+            assert!(byron || s2 == sub, "absolute->relative inverts relative->absolute (Shelley)");
             kani::cover!(byron && epoch >= 1, "later Byron epoch");
             kani::cover!(!byron && epoch > start, "later Shelley epoch");
             core::mem::forget(g);
         }
     };
 }
-// bound: epoch symbolic < 2^20, sub-slot symbolic < epoch length of the era of `epoch`, network concrete; unwind 2
+// bound: epoch symbolic < 2^20, sub-slot symbolic < epoch length (< 2^20) of the era of `epoch`, network concrete; unwind 2
 rel_abs!(c32_q_mainnet_rel_abs, mainnet);
 rel_abs!(c32_q_testnet_rel_abs, testnet);
 rel_abs!(c32_q_preprod_rel_abs, preprod);
@@ -140,9 +143,8 @@ rel_abs!(c32_q_preprod_rel_abs, preprod);
 #[kani::unwind(2)]
 fn c32_q_preview_rel_abs() {
     let g = GenesisValues::preview();
-    let epoch: u64 = kani::any();
-    let sub: u64 = kani::any();
-    kani::assume(epoch < (1 << 20));
+    let epoch = (kani::any::<u32>() & 0xf_ffff) as u64;
+    let sub = (kani::any::<u32>() & 0xf_ffff) as u64;
     let len = shelley_len(&g);
     kani::assume(sub < len);
     assert!(g.shelley_start_epoch() == 0 && g.shelley_known_slot == 0, "preview starts in Shelley");
@@ -161,8 +163,8 @@ macro_rules! wc_step {
         #[kani::unwind(2)]
         fn $name() {
             let g = GenesisValues::$net();
-            let s1: u64 = kani::any();
-            let s2: u64 = kani::any();
+            let s1 = any_slot();
+            let s2 = any_slot();
             kani::assume(s1 < s2 && s2 < MAX);
             let b1 = s1 < g.shelley_known_slot;
             let b2 = s2 < g.shelley_known_slot;
@@ -191,8 +193,8 @@ macro_rules! boundary {
         fn $name() {
             let g = GenesisValues::$net();
             let k = g.shelley_known_slot;
-            let s1: u64 = kani::any();
-            let s2: u64 = kani::any();
+            let s1 = any_slot();
+            let s2 = any_slot();
             kani::assume(s1 < k && k <= s2 && s2 < MAX);
             // epoch side
             let (e_last, _) = g.absolute_slot_to_relative(k - 1);
@@ -200,8 +202,9 @@ macro_rules! boundary {
             assert!(k % byron_len(&g) == 0, "the Shelley era starts on a Byron epoch boundary");
             assert!(e_first == e_last + 1 && sub_first == 0, "first Shelley slot opens the epoch after the last Byron epoch");
             let (e1, _) = g.absolute_slot_to_relative(s1);
+            assert!(e1 <= e_last, "Byron slots lie in epochs up to the last Byron epoch");
             let (e2, _) = g.absolute_slot_to_relative(s2);
-            assert!(e1 < e2, "epochs increase across the boundary");
+            assert!(e2 >= e_first, "Shelley slots lie in epochs from the Shelley start epoch on");
             // wall-clock side
             let t_last = g.slot_to_wallclock(k - 1);
             let t_first = g.slot_to_wallclock(k);
@@ -238,7 +241,7 @@ macro_rules! shelley_seq {
         #[kani::unwind(2)]
         fn $name() {
             let g = GenesisValues::$net();
-            let s: u64 = kani::any();
+            let s = any_slot();
             kani::assume(s >= g.shelley_known_slot && s + 1 < MAX);
             let (e1, r1) = g.absolute_slot_to_relative(s);
             let (e2, r2) = g.absolute_slot_to_relative(s + 1);
@@ -260,7 +263,7 @@ shelley_seq!(c32_q_preprod_shelley_seq, preprod);
 #[kani::unwind(2)]
 fn c32_v_twin() {
     let g = GenesisValues::mainnet();
-    let slot: u64 = kani::any();
+    let slot = any_slot();
     kani::assume(slot >= g.shelley_known_slot && slot < MAX);
     let (_, sub) = g.absolute_slot_to_relative(slot);
     let ok = sub + 1 < shelley_len(&g);
